@@ -7,6 +7,7 @@ package main
 
 import (
 	"fmt"
+	"github.com/alibaba/sentinel-golang/core/system_metric"
 	"math"
 	"math/rand"
 	"os"
@@ -31,6 +32,17 @@ type ruleDesc struct {
 	Thr      float64 `json:"threshold"`
 	Interval uint32  `json:"stat_interval_ms"`
 	MaxQ     uint32  `json:"max_queue_ms"`
+	// Mem: the threshold comes from the memory-adaptive calculator (memory usage is held below the low water mark, so
+	// the effective threshold is constantly the low-memory threshold = Thr)
+	Mem bool `json:"memory_adaptive,omitempty"`
+}
+
+func (d ruleDesc) rule(id, res string) *flow.Rule {
+	if d.Mem {
+		return &flow.Rule{ID: id, Resource: res, TokenCalculateStrategy: flow.MemoryAdaptive, ControlBehavior: flow.Throttling, MaxQueueingTimeMs: d.MaxQ, StatIntervalInMs: d.Interval,
+			LowMemUsageThreshold: int64(d.Thr), HighMemUsageThreshold: 1, MemLowWaterMarkBytes: 1000, MemHighWaterMarkBytes: 2000}
+	}
+	return &flow.Rule{ID: id, Resource: res, TokenCalculateStrategy: flow.Direct, ControlBehavior: flow.Throttling, Threshold: d.Thr, MaxQueueingTimeMs: d.MaxQ, StatIntervalInMs: d.Interval}
 }
 
 func (r ruleDesc) intervalNs() int64 {
@@ -50,12 +62,13 @@ var chain *base.SlotChain
 var caseNo int
 
 func genRule(rng *rand.Rand) ruleDesc {
-	return ruleDesc{Thr: vk.PickF(rng, 0.5, 1, 2, 3, 7, 10, 100, 1000), Interval: vk.PickU32(rng, 0, 0, 100, 1000, 10000), MaxQ: vk.PickU32(rng, 0, 0, 1, 10, 100, 500, 2000, 4294, 4295, 5000, 60000, 4294968, 4294967295)}
+	d := ruleDesc{Thr: vk.PickF(rng, 0.5, 1, 2, 3, 7, 10, 100, 1000), Interval: vk.PickU32(rng, 0, 0, 100, 1000, 10000), MaxQ: vk.PickU32(rng, 0, 0, 1, 10, 100, 500, 2000, 4294, 4295, 5000, 60000, 4294968, 4294967295)}
+	d.Mem = d.Thr >= 2 && rng.Intn(5) == 0
+	return d
 }
 
 func load(res string, r ruleDesc) {
-	flow.LoadRulesOfResource(res, []*flow.Rule{{ID: "t", Resource: res, TokenCalculateStrategy: flow.Direct, ControlBehavior: flow.Throttling,
-		Threshold: r.Thr, MaxQueueingTimeMs: r.MaxQ, StatIntervalInMs: r.Interval}})
+	flow.LoadRulesOfResource(res, []*flow.Rule{r.rule("t", res)})
 }
 
 // ------------------------------------------------------------------ sequential engine
@@ -147,7 +160,7 @@ func runTwo(idx int, rng *rand.Rand) {
 	caseNo++
 	res := fmt.Sprintf("c10-two-%d", caseNo)
 	mk := func(id string, d ruleDesc) *flow.Rule {
-		return &flow.Rule{ID: id, Resource: res, TokenCalculateStrategy: flow.Direct, ControlBehavior: flow.Throttling, Threshold: d.Thr, MaxQueueingTimeMs: d.MaxQ, StatIntervalInMs: d.Interval}
+		return d.rule(id, res)
 	}
 	flow.LoadRulesOfResource(res, []*flow.Rule{mk("A", c.A), mk("B", c.B)})
 	defer flow.ClearRulesOfResource(res)
@@ -225,8 +238,7 @@ func runSeq(idx int, c *seqCase) {
 	maxQ := int64(c.Rule.MaxQ) * 1e6
 	for i, a := range c.Arr {
 		if i == c.ReloadAt {
-			flow.LoadRules([]*flow.Rule{{ID: "t", Resource: res, TokenCalculateStrategy: flow.Direct, ControlBehavior: flow.Throttling,
-				Threshold: c.Rule.Thr, MaxQueueingTimeMs: c.Rule.MaxQ, StatIntervalInMs: c.Rule.Interval},
+			flow.LoadRules([]*flow.Rule{c.Rule.rule("t", res),
 				{ID: "elsewhere", Resource: res + "-other", TokenCalculateStrategy: flow.Direct, ControlBehavior: flow.Reject, Threshold: 1}})
 			run.Count("reloads", 1)
 		}
@@ -577,6 +589,7 @@ func coopEngine() {
 func main() {
 	sx.Quiet()
 	clk = vclock.New(1900000000000)
+	system_metric.SetSystemMemoryUsage(1)
 	// minimal chain: node prepare + flow rule check + statistic slot
 	chain = base.NewSlotChain()
 	chain.AddStatPrepareSlot(stat.DefaultResourceNodePrepareSlot)
